@@ -22,7 +22,9 @@
                              × Prefix   : `pair_safe_prefix_ed`, `tables_safe_prefix_ed` (distance ≤ τ and a common q-gram)
                              × Position : `pair_safe_position_ed` (filter_pair, FULL); filter_tables:
                                           `tables_safe_position_ed`, FULL, in SSJ/Props/C04_ed.lean (same namespace)
-                             × Suffix   : not proved (see NOT COVERED).
+                             × Suffix   : `pair_safe_suffix_ed`, `tables_safe_suffix_ed`, FULL, in SSJ/Props/C04_suffix.lean
+                                          (for the code repaired by commit 113c284; finding F8: before it the filter dropped
+                                          qualifying pairs with a repeated q-gram).
     OverlapFilter            : `overlap_filter_pair_exact` (filter_pair is EXACT: kept iff both strings are non-empty and
                                the comparison holds), `overlap_filter_tables_exact` (filter_tables, entry level: listed
                                iff a common token exists and the comparison holds).  FINDING: filter_pair drops the pair
@@ -44,7 +46,9 @@
       `qualStrict m ">=" thr A B` (similarity and its 4-decimal rounding both `≥ thr`), which implies it
       (`meets_threshold`); so the theorems are stronger than required.
       The two values must not both tokenize to nothing (that case is property C09).
-    * SuffixFilter ONLY: additionally `prefThr m ≤ thr` (`prefThr` = 1e-4 for JACCARD, 2e-4 for DICE, 1e-2 for COSINE).
+    * SuffixFilter ONLY (theorems of THIS file; SSJ/Props/C04_suffix.lean proves `pair_safe_suffix_small`,
+      `tables_safe_suffix_small` WITHOUT this hypothesis): additionally `prefThr m ≤ thr` (`prefThr` = 1e-4 for JACCARD,
+      2e-4 for DICE, 1e-2 for COSINE).
       Reason: below these thresholds `round(·, 4)` can make the size lower bound 0, the prefix length is then
       `n + 1 > n`, and the model's `_filter_suffix` is called with a NEGATIVE suffix length, for which safety fails in
       the model (`SSJ.suffixFilterSuffix_long_prefix_counterexample`).  Whether the real code misbehaves there is
@@ -62,10 +66,8 @@
       references existing rows (else the real code raises KeyError).
 
   NOT COVERED: float thresholds under OVERLAP and EDIT_DISTANCE (a float EDIT_DISTANCE threshold is not floored by the
-  filters); SuffixFilter (both forms) under EDIT_DISTANCE — the suffix estimator (`SSJ.suffixFilterSuffix_safe`) is
-  proved for strictly sorted, i.e. duplicate-free, token lists only, and q-gram bags have duplicates
-  (PositionFilter.filter_tables under EDIT_DISTANCE IS proved: SSJ/Props/C04_ed.lean, on top of the bag version
-  `SSJ.positionFindCandidates_complete_bag` of the table-level position scan);
+  filters) (PositionFilter.filter_tables under EDIT_DISTANCE: SSJ/Props/C04_ed.lean; SuffixFilter under EDIT_DISTANCE:
+  SSJ/Props/C04_suffix.lean);
   join values that are neither strings nor missing.
 -/
 import SSJ.Proofs.EntryFilters
@@ -339,7 +341,8 @@ theorem tables_safe_prefix_ed (hf : f.cfg = { measure := .editDistance, threshol
    `tables_safe_prefix_ed` with `.position`) is PROVED in SSJ/Props/C04_ed.lean: the table-level position scan is safe on
    bags (`SSJ.positionFindCandidates_complete_bag`, SSJ/Proofs/PositionBag.lean — with duplicates one probe token meets
    several postings of a candidate and the counter over-counts the bag overlap, which only helps).
-   Still NOT PROVED: the SuffixFilter under EDIT_DISTANCE (`SSJ.suffixFilterSuffix_safe` needs strictly sorted lists). -/
+   The SuffixFilter under EDIT_DISTANCE (`pair_safe_suffix_ed`, `tables_safe_suffix_ed`) is PROVED in
+   SSJ/Props/C04_suffix.lean for the repaired code (`_number_repeated_tokens`, commit 113c284). -/
 
 end EditDistance
 
